@@ -242,7 +242,7 @@ func keys(m map[string]bool) []string {
 func checkAnswer(h *mailbox.DirHandler, m *ref.Model, mid string) (sig, msg string) {
 	p := fbb.NewProposal(mid, "title", fbb.Wl2kProposal, []byte("data"))
 	got := byte(h.GetInboundAnswer(*p))
-	if want := m.Answer(mid); got != want {
+	if want := m.Answer(mid); got != want && !(refusable(mid) && want == '+' && got == '=') {
 		return "inbound-answer", fmt.Sprintf("GetInboundAnswer(%s) = %q, the model says %q (send-only=%v, in inbox=%v)", mid, got, want, m.SendOnly, m.In[mid] != nil)
 	}
 	return "", ""
@@ -250,6 +250,7 @@ func checkAnswer(h *mailbox.DirHandler, m *ref.Model, mid string) (sig, msg stri
 
 type stats struct {
 	executed, skipped   int
+	refused             int // operations on a refusable MID that the mailbox refused with an error
 	nontrivial          bool
 	p2pNonEmpty         bool
 	cmsQueries, p2pQ    int
@@ -302,6 +303,13 @@ func run(c Case) (sig, msg string, st stats) {
 				st.p2ponly = st.p2ponly || s.Msg.P2POnly
 			} else {
 				err = h.ProcessInbound(msg)
+			}
+			if err != nil && refusable(s.Msg.MID) {
+				st.refused++
+				if sg, ms := observe(h, m); sg != "" { // a refused operation changes nothing
+					return fail(i, sg, ms)
+				}
+				continue
 			}
 			if err != nil {
 				return fail(i, "op-error:"+s.Op, fmt.Sprintf("%s returned %v", s.Op, err))
@@ -401,7 +409,13 @@ func run(c Case) (sig, msg string, st stats) {
 // the MID universe: plain identifiers and the shapes a file-name based store could trip over (dots inside, the
 // store's own extension inside, a trailing dot, punctuation, a single character); all are accepted by the
 // mailbox's MID check (no separator, no leading dot, no NUL, not empty)
-var mids = []string{"C10MID000001", "AB.CD0000002", "NOTE.b2f", "X-Y_Z+=@3", "A", "C10MID00006."}
+var mids = []string{"C10MID000001", "AB.CD0000002", "NOTE.b2f", "X-Y_Z+=@3", "A", "C10MID00006.", ".HID0000007"}
+
+// refusable: identifiers a file-name based mailbox may refuse to store (a leading dot would make a hidden file).
+// The mailbox may refuse the operation with an error (the model then does not change, and a proposal may be
+// answered with a deferral); if it accepts the operation, everything else applies: a message that was added is
+// listed, is eligible, a received one is flagged unread and rejected when proposed again.
+func refusable(mid string) bool { return strings.HasPrefix(mid, ".") }
 
 // four recipient identities, each in several spellings
 var identities = [][]string{
@@ -573,6 +587,7 @@ func account(c Case, st stats) {
 			harness.Label("op:" + s.Op)
 		}
 		harness.LabelN("steps_executed", st.executed)
+		harness.LabelN("ops-on-a-leading-dot-MID-refused-by-the-mailbox", st.refused)
 		harness.LabelN("steps_skipped", st.skipped)
 		switch n := len(c.Steps); {
 		case n < 10:
